@@ -453,6 +453,10 @@ func generateLarge(rng *vh.Rng) Case {
 		}
 	}
 	sizes := []uint64{largeSize(), largeSize(), largeSize()}
+	if c.LPS == 12 {
+		// 4 KiB pages: two large buffers are enough (512+ pages each; the model is quadratic in the table size)
+		sizes = sizes[:2]
+	}
 	var total uint64
 	for _, n := range sizes {
 		total += (n-1)/ps + 1
